@@ -43,3 +43,48 @@ Proof.
   intros ty vs H. cbn. rewrite H. reflexivity.
 Qed.
 Print Assumptions C13_dynamic_rejects.
+
+(* ---- the reflective calls: for EVERY universe of Go struct declarations (user-defined types included) ---- *)
+Require Import Fields Reflect.
+
+(* whatever getStructDesc (Fields.v) accepts: every field descriptor belongs to an exported, annotated field whose
+   tag name resolves, and was derived from that field's (element) type by guessType *)
+Theorem C13_descriptor_well_formed : forall tagmap named structs ty sd,
+  get_struct_desc tagmap named structs ty = ROk sd ->
+  Forall (fun d => exists f, described tagmap named structs f d) (sd_fields sd).
+Proof. exact get_struct_desc_described. Qed.
+Print Assumptions C13_descriptor_well_formed.
+
+(* Encode: the accessor applied to a field / element - rv.Int, Uint, Bool, String, Bytes, .(time.Time), .(time.Duration) -
+   fits its Kind / exact type, so it cannot panic; a STRUCTURE descriptor sits on a struct type or an interface *)
+Theorem C13_encode_accessors_fit : forall tagmap named structs f d,
+  described tagmap named structs f d ->
+  (forall k, fd_typ d = FPrim k -> accessor_fits k (field_elem named f)) /\
+  match fd_typ d with
+  | FStruct n => is_struct structs (field_elem named f) n
+  | FDyn => is_iface named structs (field_elem named f)
+  | FPrim _ => True
+  end.
+Proof.
+  intros tagmap named structs f d H. split.
+  - intros k Hk. exact (encode_accessor_fits tagmap named structs f d k H Hk).
+  - exact (encode_structure_target tagmap named structs f d H).
+Qed.
+Print Assumptions C13_encode_accessors_fit.
+
+(* a field of an unsupported type (any other kind, a slice of slices, a user-defined type of a core kind ...) never gets
+   a descriptor: getStructDesc answers with an error for the whole structure type *)
+Theorem C13_unsupported_field_types_rejected : forall tagmap named structs f d,
+  described tagmap named structs f d ->
+  match field_elem named f with TOther _ | TSliceOf _ | TTagTy => False | _ => True end.
+Proof. exact unsupported_field_rejects. Qed.
+Print Assumptions C13_unsupported_field_types_rejected.
+
+(* the hypothesis is satisfiable: the library's own Name structure gets a descriptor with its two fields *)
+Require Import Generated Instance.
+Example C13_descriptor_example :
+  match get_struct_desc the_tagmap gen_named gen_structs "Name" with
+  | ROk sd => map fd_typ (sd_fields sd) = [FPrim KStr; FPrim KEnum]
+  | RErr _ => False
+  end.
+Proof. vm_compute. reflexivity. Qed.
